@@ -476,7 +476,31 @@ fn strategy() -> impl Strategy<Value = Case> {
         })
 }
 
+/// the first 1 024 cases of every run are fixed: every status byte as the error of the user-validation step (512: makeCredential
+/// and getAssertion) and as the status of a failing first store call (512), on requests that ask for user verification
+pub const FIXED_CASES: u64 = 1024;
+
 pub fn gen_case(seed: u64, i: u64) -> Case {
+    if i < FIXED_CASES {
+        let mut c: Case = nth_value(h64(&(0u64, i % 5, "c18-fixed")), &strategy());
+        let byte = (i % 256) as u8;
+        c.op = 1 + ((i / 256) % 2) as u8;
+        c.up = true;
+        c.uv = true;
+        c.pin_auth = false;
+        c.algs_supported = true;
+        c.rp0 = None;
+        c.warmup = 0;
+        c.cancelled_first = 0;
+        c.script = UvScript::verified();
+        c.faults = vec![];
+        if i < 512 {
+            c.script.outcome = Err(byte);
+        } else {
+            c.faults = vec![(0, byte)];
+        }
+        return c;
+    }
     nth_value(h64(&(seed, i, "c18")), &strategy())
 }
 
